@@ -277,9 +277,8 @@ func (e *Extractor) extractPrefixesAlternate(re *syntax.Regexp, depth int) *Seq 
 		result.KeepFirstBytes(3)
 		e.markAllInexact(result)
 		result.Dedup()
-		if result.Len() > e.config.MaxLiterals {
-			result.literals = result.literals[:e.config.MaxLiterals]
-			// Dropping literals leaves branches without any representative.
+		result.truncateTo(e.config.MaxLiterals)
+		if result.partialCoverage {
 			overflowed = true
 		}
 		// Mark partial coverage when overflow truncated branches.
@@ -477,9 +476,7 @@ func (e *Extractor) expandAlternateContribution(alt *syntax.Regexp, depth int) *
 		result.KeepFirstBytes(3)
 		e.markAllInexact(result)
 		result.Dedup()
-		if result.Len() > e.config.MaxLiterals {
-			result.literals = result.literals[:e.config.MaxLiterals]
-		}
+		result.truncateTo(e.config.MaxLiterals)
 	}
 
 	return result
@@ -549,9 +546,7 @@ func (e *Extractor) handleCrossProductOverflow(s *Seq) *Seq {
 	s.Dedup()
 
 	// If still over MaxLiterals after dedup, truncate the list
-	if s.Len() > e.config.MaxLiterals {
-		s.literals = s.literals[:e.config.MaxLiterals]
-	}
+	s.truncateTo(e.config.MaxLiterals)
 	return s
 }
 
@@ -689,7 +684,10 @@ func (e *Extractor) extractSuffixes(re *syntax.Regexp, depth int) *Seq {
 			for i := 0; i < seq.Len(); i++ {
 				allLits = append(allLits, seq.Get(i))
 				if len(allLits) >= e.config.MaxLiterals {
-					return NewSeq(allLits...)
+					// Remaining literals / branches have no representative.
+					truncated := NewSeq(allLits...)
+					truncated.partialCoverage = true
+					return truncated
 				}
 			}
 		}
@@ -789,7 +787,10 @@ func (e *Extractor) extractInner(re *syntax.Regexp, depth int) *Seq {
 			for i := 0; i < seq.Len(); i++ {
 				allLits = append(allLits, seq.Get(i))
 				if len(allLits) >= e.config.MaxLiterals {
-					return NewSeq(allLits...)
+					// Remaining literals / branches have no representative.
+					truncated := NewSeq(allLits...)
+					truncated.partialCoverage = true
+					return truncated
 				}
 			}
 		}
@@ -882,9 +883,7 @@ func (e *Extractor) expandCaseFoldLiteral(runes []rune) *Seq {
 		result.literals[i].Complete = false
 	}
 	result.Dedup()
-	if result.Len() > e.config.MaxLiterals {
-		result.literals = result.literals[:e.config.MaxLiterals]
-	}
+	result.truncateTo(e.config.MaxLiterals)
 	return result
 }
 
@@ -992,7 +991,10 @@ func (e *Extractor) expandCharClass(re *syntax.Regexp) *Seq {
 
 			// Respect MaxLiterals limit
 			if len(lits) >= e.config.MaxLiterals {
-				return NewSeq(lits...)
+				seq := NewSeq(lits...)
+				// Members beyond the limit have no representative.
+				seq.partialCoverage = count > len(lits)
+				return seq
 			}
 		}
 	}
